@@ -5,6 +5,8 @@
 
 package cache
 
+import "k8s.io/apimachinery/pkg/api/meta"
+
 // VerifInformersSynced reports whether every informer started by Run has synced.
 // Verification-only accessor: lets a harness spin on sync instead of the 100ms poll of WaitForCacheSync.
 func (sc *SchedulerCache) VerifInformersSynced() bool {
@@ -39,4 +41,25 @@ func (sc *SchedulerCache) VerifInFlightPods() ([]string, bool) {
 		return su.VerifInFlightPods()
 	}
 	return nil, false
+}
+
+// VerifStoreVersions lists "<Kind>/<namespace>/<name>" -> resourceVersion for the objects currently held by
+// the informer stores a snapshot is built from (pods, nodes, pod groups, queues, bind requests).
+// Verification-only accessor: a harness that keeps one cache alive across several scheduling cycles changes
+// the API objects between cycles and waits until the informers have seen those changes.
+func (sc *SchedulerCache) VerifStoreVersions() map[string]string {
+	out := map[string]string{}
+	add := func(kind string, objs []interface{}) {
+		for _, o := range objs {
+			if m, err := meta.Accessor(o); err == nil {
+				out[kind+"/"+m.GetNamespace()+"/"+m.GetName()] = m.GetResourceVersion()
+			}
+		}
+	}
+	add("Pod", sc.informerFactory.Core().V1().Pods().Informer().GetStore().List())
+	add("Node", sc.informerFactory.Core().V1().Nodes().Informer().GetStore().List())
+	add("PodGroup", sc.kubeAiSchedulerInformerFactory.Scheduling().V2alpha2().PodGroups().Informer().GetStore().List())
+	add("Queue", sc.kubeAiSchedulerInformerFactory.Scheduling().V2().Queues().Informer().GetStore().List())
+	add("BindRequest", sc.kubeAiSchedulerInformerFactory.Scheduling().V1alpha2().BindRequests().Informer().GetStore().List())
+	return out
 }
